@@ -110,16 +110,19 @@ inductive Glitch where
   | locked        -- the old entry is locked by its release (`TryRLock` fails)
   deriving Repr, DecidableEq
 
+/-- `if misses++; misses < 3 { continue }` (on the incremented counter) -/
+abbrev getMissesCond (misses : Nat) : Prop := misses < 3
+
 /-- the loop of `MemoryCache.Get`; `left` = 8 − retry -/
 def getLoop [DecidableEq K] : Nat → Nat → List Glitch → QState K V → K → Option V × QState K V
   | 0, _, _, s, _ => (none, s)
   | left + 1, misses, g :: gl, s, k =>
     match g with
-    | .deadMiss => if misses + 1 < 3 then getLoop left (misses + 1) gl s k else (none, s)
+    | .deadMiss => if getMissesCond (misses + 1) then getLoop left (misses + 1) gl s k else (none, s)
     | .released | .locked => getLoop left misses gl s k
   | left + 1, misses, [], s, k =>
     match bGet s k with
-    | (none, s) => if misses + 1 < 3 then getLoop left (misses + 1) [] s k else (none, s)
+    | (none, s) => if getMissesCond (misses + 1) then getLoop left (misses + 1) [] s k else (none, s)
     | (some e, s) =>
       match s.ents e with
       | (k', some v) => if k' = k then (some v, s) else getLoop left misses [] s k
